@@ -80,6 +80,13 @@ def eval_conv_shells(
         alphas = plan.alphas
         alpha_norms = plan.alpha_norms
         itype = plan.settings.integral_type
+        if getattr(plan.settings, "mode", "smooth") == "exact":
+            # Same restriction as eval_conv_gto_fast in sdmx_slow: only the
+            # smooth kernels are implemented in the fast SDMX routines.
+            raise NotImplementedError(
+                "The fast SDMX implementation does not support mode='exact'. "
+                "Use ciderpress.pyscf.sdmx_slow instead."
+            )
     if non0tab is not None:
         if (non0tab == 0).any():
             # TODO implement some sort of screening later
